@@ -273,14 +273,38 @@ func r143(c *Ctx) {
 				} else if _, isConst := idx.(*ssa.Const); isConst {
 					why = "every goroutine writes the same constant index"
 				}
+			} else if al, ok := core.FreeVarBinding(fv).(*ssa.Alloc); ok && core.InLoop(al.Block()) && sameCycle(al.Block(), site.Block()) {
+				// slot := &xs[i] taken per iteration: the captured pointer is private to the
+				// iteration when it is assigned once, from an element address whose index is the
+				// loop's own counter
+				if sts := core.CellStores(al); len(sts) == 1 {
+					if ia, ok := sts[0].Val.(*ssa.IndexAddr); ok && sameCycle(ia.Block(), site.Block()) && loopCounter(ia.Index) {
+						okStore = true
+					} else {
+						why = "the captured pointer " + fv.Name() + " is not the address of this iteration's own element"
+					}
+				}
 			}
 			r.Check(okStore, "R14.3", name, "write to captured "+fv.Name(), p.Pos(st.Pos()),
 				"the goroutine writes only its own slot (index captured per iteration)", why)
 		})
 	}
-	if n < 2 {
-		r.Undecide("R14.3", "", "goroutine closure writes", "", fmt.Sprintf("%d found (floor 2: the batch check's result slots)", n))
+	if n < 1 {
+		r.Undecide("R14.3", "", "goroutine closure writes", "", fmt.Sprintf("%d found (floor 1: the batch check's result slots)", n))
 	}
+}
+
+// loopCounter: v is the counter of a loop (a phi of the loop header, or that phi plus a
+// constant as in go/ssa's range-over-slice loops).
+func loopCounter(v ssa.Value) bool {
+	v = core.ValueOrigin(v)
+	if bo, ok := v.(*ssa.BinOp); ok && bo.Op == token.ADD {
+		if _, isK := core.IntConst(bo.Y); isK {
+			v = bo.X
+		}
+	}
+	ph, ok := v.(*ssa.Phi)
+	return ok && core.InLoop(ph.Block())
 }
 
 // ---- R14.4 publish-then-read -------------------------------------------------------------------------
@@ -325,6 +349,11 @@ func r144(c *Ctx) {
 								}
 							}
 						}
+					}
+					if !okRead {
+						// not one dominating receive, but a receive on every path to the read
+						// (select { case <-doneCh: ...; case <-ctx.Done(): cancel(); <-doneCh }; read)
+						okRead = doneOnEveryPath(fn, x)
 					}
 					r.Check(okRead, "R14.4", core.FuncName(fn), "read of g.result", p.Pos(x.Pos()),
 						"the result is read only after doneCh was received from (closed by the consumer after its single write)",
@@ -767,4 +796,96 @@ func configReadOnly(c *Ctx, rule string) {
 	}
 	r.Check(len(bad) == 0, rule, "internal/check, internal/expand", "namespace configuration is only read", "",
 		fmt.Sprintf("%d field accesses of namespace/AST values, none of them a write or an in-place reorder", n), strings.Join(dedupe(bad), "; ")+": concurrent requests read this memory while it changes, and the configuration stays changed for every later request")
+}
+
+// doneOnEveryPath: every path from the entry of fn to the instruction at passes a receive from
+// doneCh (a plain receive, or the select arm that receives from it).
+func doneOnEveryPath(fn *ssa.Function, at ssa.Instruction) bool {
+	isDoneRecv := func(ins ssa.Instruction) bool {
+		if u, ok := ins.(*ssa.UnOp); ok && u.Op == token.ARROW {
+			if f, ok := fieldOfLoad(u.X); ok && f == "doneCh" {
+				return true
+			}
+		}
+		return false
+	}
+	armEdge := func(from, to *ssa.BasicBlock) bool {
+		if len(from.Instrs) == 0 {
+			return false
+		}
+		ifi, ok := from.Instrs[len(from.Instrs)-1].(*ssa.If)
+		if !ok {
+			return false
+		}
+		for k := 0; k < 2; k++ {
+			if from.Succs[k] != to || from.Succs[0] == from.Succs[1] {
+				continue
+			}
+			op, x, y, ok := core.Cond{V: ifi.Cond, True: k == 0, At: from}.Holds()
+			if !ok || op != token.EQL {
+				continue
+			}
+			ex, ok := x.(*ssa.Extract)
+			if !ok {
+				continue
+			}
+			sel, ok := ex.Tuple.(*ssa.Select)
+			if !ok {
+				continue
+			}
+			if kk, ok := core.IntConst(y); ok && int(kk) < len(sel.States) {
+				if f, ok := fieldOfLoad(sel.States[kk].Chan); ok && f == "doneCh" {
+					return true
+				}
+			}
+		}
+		return false
+	}
+	// must[b]: a receive has happened on every path to the entry of b (optimistic start)
+	must := make([]bool, len(fn.Blocks))
+	for i := range must {
+		must[i] = i != 0
+	}
+	out := func(b *ssa.BasicBlock) bool {
+		if must[b.Index] {
+			return true
+		}
+		for _, ins := range b.Instrs {
+			if isDoneRecv(ins) {
+				return true
+			}
+		}
+		return false
+	}
+	for changed := true; changed; {
+		changed = false
+		for _, b := range fn.Blocks {
+			if b.Index == 0 || len(b.Preds) == 0 {
+				continue
+			}
+			v := true
+			for _, pr := range b.Preds {
+				if !(out(pr) || armEdge(pr, b)) {
+					v = false
+				}
+			}
+			if v != must[b.Index] {
+				must[b.Index] = v
+				changed = true
+			}
+		}
+	}
+	b := at.Block()
+	if must[b.Index] {
+		return true
+	}
+	for _, ins := range b.Instrs {
+		if ins == at {
+			break
+		}
+		if isDoneRecv(ins) {
+			return true
+		}
+	}
+	return false
 }
